@@ -167,6 +167,9 @@ def injector_pair(kind, frame, rng_seed):
         return [num(v) for v in np.asarray(x, dtype=float).ravel()]
 
     pa = {0.0: 0.5} if kind == "resample" else {0.0: 1, 1.0: 2, 2.0: 3}
+    if kind == "dirichlet" and rng_seed % 2 == 0:
+        pa = {0.0: 4}           # weights for some of the labels only: the others are the injector's business, not the caller's dictionary's
+    expected_arg = dict(pa)
     pb = dict(pa)
     out_a = run(mk(), pa)
     caller = mk()
@@ -177,7 +180,7 @@ def injector_pair(kind, frame, rng_seed):
         flags.append("INPUT MODIFIED")
     if type(out_b) is not type(caller):
         flags.append("container type changed")
-    if pb != ({0.0: 0.5} if kind == "resample" else {0.0: 1, 1.0: 2, 2.0: 3}):
+    if pb != expected_arg or [type(k) for k in pb] != [type(k) for k in expected_arg]:
         flags.append("ARGUMENT DICT MODIFIED")
     ob = out_b.to_numpy() if isinstance(out_b, pd.DataFrame) else out_b
     cb = caller.to_numpy() if isinstance(caller, pd.DataFrame) else caller
